@@ -75,6 +75,11 @@ ANCHORS = {
         "neuroml/hdf5/NeuroMLHdf5Parser.py": ["NeuroMLHdf5Parser.*"],
         "neuroml/hdf5/NeuroMLXMLParser.py": ["NeuroMLXMLParser.*"],
         "neuroml/hdf5/NetworkContainer.py": ["*"],
+        "neuroml/utils.py": ["add_all_to_document"],
+        "neuroml/hdf5/__init__.py": ["get_str_attribute_group"],
+        "neuroml/__init__.py": ["*"],
+        "neuroml/nml/generatedssupersuper.py": ["GeneratedsSuperSuper.add", "GeneratedsSuperSuper._get_members",
+                                                "GeneratedsSuperSuper.get_nml2_class_hierarchy"],
     },
     "C08": {
         "neuroml/writers.py": ["NeuroMLWriter.*", "NeuroMLHdf5Writer.*", "ArrayMorphWriter.*"],
